@@ -198,26 +198,10 @@ variable {γ ι : Type}
 
 /-! ### labels are duplicate-free -/
 
-theorem mem_firstDedup {a : Name} : ∀ {l : List Name}, a ∈ firstDedup l ↔ a ∈ l
-  | [] => by simp [firstDedup]
-  | x :: xs => by
-    simp only [firstDedup, List.mem_cons, List.mem_filter, mem_firstDedup (l := xs)]
-    by_cases h : a = x
-    · simp [h]
-    · simp [h]
-
-theorem nodup_firstDedup : ∀ l : List Name, (firstDedup l).Nodup
-  | [] => List.nodup_nil
-  | x :: xs => by
-    simp only [firstDedup, List.nodup_cons, List.mem_filter]
-    refine ⟨?_, List.Nodup.sublist List.filter_sublist (nodup_firstDedup xs)⟩
-    intro h
-    simp at h
-
 theorem nodup_assignCols (keys frame : List Name) (h : frame.Nodup) : (assignCols keys frame).Nodup := by
-  unfold assignCols
+  unfold assignCols assignLabels
   rw [List.nodup_append]
-  refine ⟨h, List.Nodup.sublist List.filter_sublist (nodup_firstDedup keys), ?_⟩
+  refine ⟨h, List.Nodup.sublist List.filter_sublist (nodup_dedupFirst keys), ?_⟩
   intro a ha b hb hab
   subst hab
   have := (List.mem_filter.mp hb).2
